@@ -126,6 +126,12 @@ func init() {
 		Gen:     GenStmtFuzzScript,
 		Oracles: func() []Oracle { return []Oracle{&AccountingOracle{}} },
 	}
+	Props["C12"] = PropDef{
+		Gen: GenHandoffScript,
+		Oracles: func() []Oracle {
+			return []Oracle{&HandoffOracle{}, &CapacityOracle{prop: "C01", as: "C12"}, &CapacityOracle{prop: "C02", as: "C12"}}
+		},
+	}
 	Props["C02"] = PropDef{
 		Gen: func(t *rapid.T, thorough bool) *Script {
 			o := mixedOpts(thorough)
